@@ -199,9 +199,11 @@ func (da *doubleArray) lookup(path string, params []Param, idx int) (*node, []Pa
 			indices = append(indices, (uint64(i)<<indexOffset)|(uint64(idx)&indexMask))
 		}
 		c := path[i]
-		if c == ParamCharacter || c == WildcardCharacter || c == TerminationCharacter {
+		if c == ParamCharacter || c == WildcardCharacter || c == TerminationCharacter || c == 0 {
 			// reserved characters in the looked-up path never match an edge of the trie:
-			// they can only be part of a parameter value.
+			// they can only be part of a parameter value. The same holds for a NUL byte:
+			// unused slots of the double array carry the check byte 0, so following it
+			// would "match" an empty slot and continue from an unrelated node.
 			goto BACKTRACKING
 		}
 		if idx = nextIndex(da.bc[idx].Base(), c); idx >= len(da.bc) || da.bc[idx].Check() != c {
